@@ -20,10 +20,14 @@ Fixpoint wf_keys (o : obj) : Prop :=
   end.
 
 Definition child_at (k : kind) (items : list (key * obj)) (seg : key) : option obj :=
-  match k, seg with
-  | KList, KI i | KTuple, KI i => match nth_error items i with Some (_, c) => Some c | None => None end
-  | KDict, _ => kd_get items seg
-  | _, _ => None
+  match k with
+  | KList | KTuple =>
+      match seg_index seg with
+      | Some i => match nth_error items i with Some (_, c) => Some c | None => None end
+      | None => None
+      end
+  | KDict => kd_get items seg
+  | _ => None
   end.
 
 Inductive wres := WFound (o : obj) | WSet | WMissing.
@@ -50,9 +54,9 @@ Proof.
     destruct (child_at k items seg) as [c'|] eqn:Ec; [|discriminate].
     unfold getitem. cbn [resolve].
     destruct k; cbn in Es; try discriminate; cbn [child_at] in Ec.
-    + destruct seg as [|i|t]; try discriminate.
+    + destruct (seg_index seg) as [i|]; try discriminate.
       destruct (nth_error items i) as [[k' c'']|]; [|discriminate]. inversion Ec; subst. apply IH. assumption.
-    + destruct seg as [|i|t]; try discriminate.
+    + destruct (seg_index seg) as [i|]; try discriminate.
       destruct (nth_error items i) as [[k' c'']|]; [|discriminate]. inversion Ec; subst. apply IH. assumption.
     + rewrite Ec. apply IH. assumption.
 Qed.
@@ -64,9 +68,9 @@ Proof.
   destruct (is_set k) eqn:Es; [reflexivity|].
   destruct (child_at k items seg) as [c'|] eqn:Ec; [|discriminate].
   destruct k; cbn in Es; try discriminate; cbn [child_at] in Ec.
-  - destruct seg as [|i|t]; try discriminate.
+  - destruct (seg_index seg) as [i|]; try discriminate.
     destruct (nth_error items i) as [[k' c'']|]; [|discriminate]. inversion Ec; subst. apply IH. assumption.
-  - destruct seg as [|i|t]; try discriminate.
+  - destruct (seg_index seg) as [i|]; try discriminate.
     destruct (nth_error items i) as [[k' c'']|]; [|discriminate]. inversion Ec; subst. apply IH. assumption.
   - rewrite Ec. apply IH. assumption.
 Qed.
@@ -102,8 +106,8 @@ Lemma child_at_in : forall id k items ck c,
   wf_keys (ONode id k items) -> is_set k = false -> In (ck, c) items -> child_at k items ck = Some c.
 Proof.
   intros id k items ck c [Hk _] Hs Hin. destruct k; cbn in Hs; try discriminate; cbn [child_at].
-  - destruct (enum_in items ck c Hk Hin) as [i [-> Hi]]. rewrite Hi. reflexivity.
-  - destruct (enum_in items ck c Hk Hin) as [i [-> Hi]]. rewrite Hi. reflexivity.
+  - destruct (enum_in items ck c Hk Hin) as [i [-> Hi]]. cbn [seg_index]. rewrite Hi. reflexivity.
+  - destruct (enum_in items ck c Hk Hin) as [i [-> Hi]]. cbn [seg_index]. rewrite Hi. reflexivity.
   - apply kd_get_in; assumption.
 Qed.
 
@@ -224,4 +228,17 @@ Proof.
   - destruct H as [ep' [ek' [er [es' [s [Ee [Hps [Hs [Hx|[c [Hx ->]]]]]]]]]]]; inversion Ee; subst.
     + cbn [app] in Hps. rewrite Hps in Hc. rewrite (walk_cross _ _ _ Hx) in Hc. discriminate.
     + cbn [app] in Hps. rewrite Hps. unfold get_path. apply walk_get. assumption.
+Qed.
+
+(* the get_path loop (model) computes Spec.lookup_path: value, or PathAccessError *)
+Theorem get_path_is_lookup : forall root p,
+  get_path root p = match lookup_path (collect_defs root) root p with Some r => Ok r | None => Raise KeyError end.
+Proof.
+  intros root p. unfold get_path. generalize (collect_defs root) as defs. intro defs.
+  revert root. induction p as [|seg rest IH]; intro cur; cbn [get_path_from lookup_path]; [reflexivity|].
+  unfold getitem. destruct (resolve defs cur) as [n|id k items|id k|k|id k]; try reflexivity.
+  destruct k; try reflexivity.
+  - destruct (seg_index seg) as [i|]; [|reflexivity]. destruct (nth_error items i) as [[k' c]|]; [apply IH|reflexivity].
+  - destruct (seg_index seg) as [i|]; [|reflexivity]. destruct (nth_error items i) as [[k' c]|]; [apply IH|reflexivity].
+  - destruct (kd_get items seg); [apply IH|reflexivity].
 Qed.
